@@ -502,3 +502,40 @@ B('C08.dsa-width-from-prime-alone', ['C08', 'C05'], [(P + 'dnsrec/record.py', " 
   "        key_size = (key_params.prime.bit_length() + 7) // 8\n")], mention=['DSA'])
 B('C01.flags-default-of-another-kind', ['C01'], [(P + 'tls/mysql.py', "    states = attr.ib(default=attr.Factory(set), validator=attr.validators.deep_iterable(",
                                                   "    states = attr.ib(default=attr.Factory(dict), validator=attr.validators.deep_iterable(")], mention=['default-kind'])
+
+# ---------------------------------------------------------------- rules of the ninth seeded round (DESIGN 11.26), one breaking variant and one twin each
+B('C16.hassh-names-through-set', ['C16', 'C07'], [(P + 'ssh/subprotocol.py',
+  "                for algorithm in algorithms\n            ])\n            for algorithms in algorithm_vectors\n",
+  "                for algorithm in sorted(set(algorithms), key=list(algorithms).index)\n            ])\n            for algorithms in algorithm_vectors\n")],
+  mention=['C16.R12', 'C07.R16'])
+N('benign.hassh-names-through-list-copy', [(P + 'ssh/subprotocol.py',
+  "                for algorithm in algorithms\n            ])\n            for algorithms in algorithm_vectors\n",
+  "                for algorithm in list(algorithms)\n            ])\n            for algorithms in algorithm_vectors\n")])
+B('C06.sni-case-folded', ['C06'], [(P + 'tls/extension.py',
+  "            host_name = six.ensure_text(bytes(bytearray(parser['server_name'])), 'idna')\n",
+  "            host_name = six.ensure_text(bytes(bytearray(parser['server_name'])).lower(), 'idna')\n")], mention=['C06.R11'])
+B('C15.extension-block-needs-six-octets', ['C15', 'C06'], [(P + 'tls/subprotocol.py',
+  "        if parser.parsed_length >= len(handshake_header_parser['payload']):\n            return None\n\n        parser.parse_parsable('extensions', extensions_class)\n",
+  "        if len(handshake_header_parser['payload']) - parser.parsed_length < 7:\n            return None\n\n        parser.parse_parsable('extensions', extensions_class)\n")],
+  mention=['C15.R10', 'C06.R13'])
+N('benign.extension-block-test-spelled-as-difference', [(P + 'tls/subprotocol.py',
+  "        if parser.parsed_length >= len(handshake_header_parser['payload']):\n            return None\n\n        parser.parse_parsable('extensions', extensions_class)\n",
+  "        if len(handshake_header_parser['payload']) - parser.parsed_length <= 0:\n            return None\n\n        parser.parse_parsable('extensions', extensions_class)\n")])
+B('C11.rdp-protocol-word-with-added-member', ['C11', 'C09'], [(P + 'tls/rdp.py',
+  "        composer.compose_numeric_flags(self.protocol, 4)\n",
+  "        protocol = set(self.protocol)\n        if RDPProtocol.HYBRID_EX in protocol:\n            protocol.add(RDPProtocol.HYBRID)\n        composer.compose_numeric_flags(protocol, 4)\n")],
+  mention=['C11.R15', 'C09.R19'])
+N('benign.rdp-protocol-word-from-a-copy', [(P + 'tls/rdp.py',
+  "        composer.compose_numeric_flags(self.protocol, 4)\n",
+  "        protocol = set(self.protocol)\n        composer.compose_numeric_flags(protocol, 4)\n")])
+B('C09.openvpn-first-octet-compared-whole', ['C09'], [(P + 'tls/openvpn.py',
+  "        if parser['packet_type'] >> 3 != cls.get_op_code():\n", "        if parser['packet_type'] != cls.get_op_code() << 3:\n")], mention=['C09.R18'])
+N('benign.openvpn-opcode-through-mask', [(P + 'tls/openvpn.py',
+  "        if parser['packet_type'] >> 3 != cls.get_op_code():\n", "        if (parser['packet_type'] & 0xf8) != cls.get_op_code() << 3:\n")])
+B('C18.csp-sources-keep-empty-elements', ['C18'], [(P + 'httpx/header.py',
+  "            parser.parse_string_array('value', ' ', source_variant_parsable, skip_empty=True)\n",
+  "            parser.parse_string_array('value', ' ', source_variant_parsable)\n")], mention=['C18.R15'])
+B('C14.csp-sources-rendered-once', ['C14'], [(P + 'httpx/header.py',
+  "                collections.OrderedDict([('type', source.get_type()), ('value', source._asdict())])\n                for source in self.value\n",
+  "                collections.OrderedDict([('type', source.get_type()), ('value', source._asdict())])\n                for source in collections.OrderedDict.fromkeys(self.value)\n")],
+  mention=['C14.R22'])
